@@ -1259,9 +1259,19 @@ Definition dbl_exact (z : Z) : bool :=
   let a := Z.abs z in
   (a <? 2 ^ 53) || (a mod 2 ^ (Z.log2 a - 52) =? 0).
 
-(* kind 'num_int' *)
+(* what the constructor stores for the int z: NumericValue = the exact decimal
+   string iff it fits in 16 characters; otherwise (fix of D111, /repo 1fabebb)
+   FloatingPointValue = float(z) as well, so that .value does not fall back on
+   the rounded DS string after an encoding.  The number an accessor can report
+   is float(z) in both cases - z itself iff z is an exact double.           *)
+Definition num_int_has_float (z : Z) : bool := negb (num_int_exact z).
+Definition num_of_int (z : Z) (u : code) (ql : option code) : value :=
+  VNum (inject_Z z) (num_int_has_float z) u ql.
+
+(* kind 'num_int': exact decimal string stored? FloatingPointValue written?
+   .value == z, on the constructed item and after bytes + from_dataset?      *)
 Definition run_num_int (z : Z) : val :=
-  if num_int_exact z then VL [VB true; VB (dbl_exact z)] else VL [VB false; VNone].
+  VL [VB (num_int_exact z); VB (num_int_has_float z); VB (dbl_exact z)].
 
 (* ------------------------------------------------------------------ *)
 (* kind 'coplanar': highdicom.spatial.are_points_coplanar driven directly
